@@ -467,6 +467,7 @@ RULES = [
     ("C02-R3", "every documented operator spelling denotes its operator (Op::from evaluated on all spellings x letter cases) [shared with C02]", lambda ctx: __import__("c02").r3(ctx)),
     ("X-OPERANDS", "each operand of a comparison is evaluated afresh (no memo shared between operands or conditions: a remembered value comes back as text) [shared]", lambda ctx: __import__("conf").operands_evaluated_afresh(ctx)),
     ("X-REEVAL", "an expression evaluated twice for one entry has the same typed value both times (no text-valued memo beside the map handed in) [shared]", lambda ctx: __import__("gcev").reevaluation_is_stable(ctx)),
+    ("X-QUERY", "the WHERE tree stored in the query is the Boolean function parse_where returned (any rewriting pass in between is followed through) [shared]", lambda ctx: __import__("extra2").where_tree_reaches_query(ctx)),
 ]
 
 EXPLANATION = (
